@@ -237,8 +237,112 @@ pub fn scenario_for<P: Prop>(p: &P, opts: &Opts, idx: u64, sweep: bool, stats: &
     }
 }
 
+/// Execute a scenario outside the batch (shrinking, confirmation, samples) under the watchdog's
+/// deadline. A scenario that does not return is itself a finding: it is written out as a `hang`
+/// replay file and the process exits 1 (the stuck helper thread cannot be joined).
+pub fn exec_deadline<P: Prop + 'static>(p: &'static P, sc: &P::Sc, seed: u64) -> RunReport {
+    let (tx, rx) = std::sync::mpsc::channel();
+    let sc2 = sc.clone();
+    let _ = std::thread::spawn(move || {
+        let r = p.execute(&sc2);
+        let _ = tx.send(r);
+    });
+    match rx.recv_timeout(std::time::Duration::from_millis(HANG_MS)) {
+        Ok(r) => r,
+        Err(_) => post_hang(p, sc, seed),
+    }
+}
+
+pub fn trace_deadline<P: Prop + 'static>(p: &'static P, sc: &P::Sc, seed: u64) -> Value {
+    let (tx, rx) = std::sync::mpsc::channel();
+    let sc2 = sc.clone();
+    let _ = std::thread::spawn(move || {
+        let r = p.trace(&sc2);
+        let _ = tx.send(r);
+    });
+    match rx.recv_timeout(std::time::Duration::from_millis(HANG_MS)) {
+        Ok(r) => r,
+        Err(_) => post_hang(p, sc, seed),
+    }
+}
+
+/// Generate the scenario for a run index on a helper thread under the hang deadline (generation
+/// consults the library's decoder as the reference, so on a broken tree it can be what hangs).
+/// On a timeout a `hang` replay file that names the run index is written and the process exits 1.
+fn gen_deadline<P: Prop + 'static>(p: &'static P, opts: &Opts, idx: u64, sweep: bool, stats: &mut GenStats) -> P::Sc {
+    let (tx, rx) = std::sync::mpsc::channel();
+    let (seed, tier) = (opts.seed, opts.tier);
+    let _ = std::thread::spawn(move || {
+        let o = Opts { tier, seed, runs_override: None, workers: None, dump_hashes: None, no_evidence: true };
+        let mut st = GenStats::default();
+        let sc = scenario_for(p, &o, idx, sweep, &mut st);
+        let _ = tx.send((sc, st));
+    });
+    match rx.recv_timeout(std::time::Duration::from_millis(HANG_MS)) {
+        Ok((sc, st)) => {
+            stats.rejected_by_reference += st.rejected_by_reference;
+            sc
+        },
+        Err(_) => {
+            let dir = verif_root().join("replays");
+            let _ = std::fs::create_dir_all(&dir);
+            let path = dir.join(format!("{}-{}-{}{}-hang.json", p.id(), seed, if sweep { "s" } else { "r" }, idx));
+            let rf = ReplayFile {
+                property: p.id().to_string(),
+                seed,
+                run_index: idx,
+                from_sweep: sweep,
+                clause: "hang".into(),
+                detail: "generating the scenario (which consults the library's decoder as the reference) did not return within 40 s".into(),
+                trace_hash: 0,
+                original_size: 0,
+                minimised_size: 0,
+                shrink_executions: 0,
+                scenario: Value::Null,
+                trace: Value::Null,
+                prelude: None,
+                any_clause: false,
+                regenerate: Some((tier.name().to_string(), idx, sweep)),
+            };
+            let _ = std::fs::write(&path, serde_json::to_string_pretty(&rf).unwrap());
+            println!("violation: clause=hang run={}{} detail=generating the scenario did not return within 40 s", if sweep { "sweep#" } else { "seeded#" }, idx);
+            println!("VIOLATION property={} replay={}", p.id(), path.display());
+            std::process::exit(1)
+        },
+    }
+}
+
+fn post_hang<P: Prop + 'static>(p: &'static P, sc: &P::Sc, seed: u64) -> ! {
+    let dir = verif_root().join("replays");
+    let _ = std::fs::create_dir_all(&dir);
+    let mut h = crate::rng::Fnv::default();
+    h.write(serde_json::to_string(sc).unwrap_or_default().as_bytes());
+    let path = dir.join(format!("{}-{}-x{:08x}-hang.json", p.id(), seed, h.finish() as u32));
+    let rf = ReplayFile {
+        property: p.id().to_string(),
+        seed,
+        run_index: 0,
+        from_sweep: false,
+        clause: "hang".into(),
+        detail: "a scenario derived from a failing run (shrinking / confirmation) did not return within 40 s".into(),
+        trace_hash: 0,
+        original_size: 0,
+        minimised_size: 0,
+        shrink_executions: 0,
+        scenario: serde_json::to_value(sc).unwrap(),
+        trace: Value::Null,
+        prelude: None,
+        any_clause: false,
+        regenerate: None,
+    };
+    let _ = std::fs::write(&path, serde_json::to_string_pretty(&rf).unwrap());
+    println!("violation: clause=hang detail=a scenario derived from a failing run did not return within 40 s");
+    println!("VIOLATION property={} replay={}", p.id(), path.display());
+    std::process::exit(1)
+}
+
 /// Greedy shrinking: keep a candidate iff the same clause still fails.
-pub fn minimise<P: Prop>(p: &P, sc: &P::Sc, clause: &str, budget: usize) -> (P::Sc, usize) {
+pub fn minimise<P: Prop + 'static>(p: &'static P, sc: &P::Sc, clause: &str, budget: usize, seed: u64) -> (P::Sc, usize) {
     let mut cur = sc.clone();
     let mut execs = 0usize;
     let started = Instant::now();
@@ -255,7 +359,7 @@ pub fn minimise<P: Prop>(p: &P, sc: &P::Sc, clause: &str, budget: usize) -> (P::
                 continue;
             }
             execs += 1;
-            let r = p.execute(&c);
+            let r = exec_deadline(p, &c, seed);
             if r.violations.iter().any(|v| v.clause == clause) {
                 cur = c;
                 cur_size = cs;
@@ -288,6 +392,10 @@ pub struct ReplayFile {
     /// the violation shows: any violation of the property counts as a reproduction
     #[serde(default)]
     pub any_clause: bool,
+    /// set instead of `scenario` when generating the scenario itself does not return (the
+    /// generator consults the library's decoder): (tier, index, from_sweep) to regenerate from
+    #[serde(default)]
+    pub regenerate: Option<(String, u64, bool)>,
 }
 
 pub fn replay<P: Prop + 'static>(p: &'static P, path: &Path) -> i32 {
@@ -305,6 +413,36 @@ pub fn replay<P: Prop + 'static>(p: &'static P, path: &Path) -> i32 {
             return 2;
         },
     };
+    if let Some((tier, idx, sweep)) = rf.regenerate.clone() {
+        // generating the scenario is what hangs: do that under the deadline
+        let (tx, rx) = std::sync::mpsc::channel();
+        let seed = rf.seed;
+        let _ = std::thread::spawn(move || {
+            let o = Opts {
+                tier: if tier == "thorough" { Tier::Thorough } else { Tier::Quick },
+                seed,
+                runs_override: None,
+                workers: None,
+                dump_hashes: None,
+                no_evidence: true,
+            };
+            let mut stats = GenStats::default();
+            let sc = scenario_for(p, &o, idx, sweep, &mut stats);
+            let _ = p.execute(&sc);
+            let _ = tx.send(());
+        });
+        return match rx.recv_timeout(std::time::Duration::from_millis(HANG_MS)) {
+            Ok(()) => {
+                println!("replay: generating and executing the scenario returned: hang did NOT reproduce");
+                0
+            },
+            Err(_) => {
+                println!("replay: generating the scenario (which consults the library's decoder) has not returned after {} s: hang reproduced", HANG_MS / 1000);
+                println!("VIOLATION property={} replay={}", p.id(), path.display());
+                std::process::exit(1)
+            },
+        };
+    }
     let sc: P::Sc = match serde_json::from_value(rf.scenario.clone()) {
         Ok(s) => s,
         Err(e) => {
@@ -369,7 +507,7 @@ pub fn replay<P: Prop + 'static>(p: &'static P, path: &Path) -> i32 {
     }
 }
 
-pub fn run_batch<P: Prop>(p: &P, opts: &Opts) -> i32 {
+pub fn run_batch<P: Prop + 'static>(p: &'static P, opts: &Opts) -> i32 {
     let t0 = Instant::now();
     let root = verif_root();
     let n_runs = opts.runs_override.unwrap_or_else(|| p.runs(opts.tier));
@@ -441,8 +579,20 @@ pub fn run_batch<P: Prop>(p: &P, opts: &Opts) -> i32 {
     let report_hang = |tag: u64| -> ! {
         let sweep = tag >> 62 & 1 == 1;
         let idx = tag & !(1 << 62);
-        let mut stats = GenStats::default();
-        let sc = scenario_for(p, opts, idx, sweep, &mut stats);
+        // regenerate the scenario for the replay file — under a deadline, because generation
+        // consults the library's decoder and may be what hangs
+        let (gtx, grx) = std::sync::mpsc::channel();
+        let (gseed, gtier) = (opts.seed, opts.tier);
+        let _ = std::thread::spawn(move || {
+            let o = Opts { tier: gtier, seed: gseed, runs_override: None, workers: None, dump_hashes: None, no_evidence: true };
+            let mut stats = GenStats::default();
+            let sc = scenario_for(p, &o, idx, sweep, &mut stats);
+            let _ = gtx.send(serde_json::to_value(&sc).unwrap());
+        });
+        let (scv, regen) = match grx.recv_timeout(std::time::Duration::from_secs(10)) {
+            Ok(v) => (v, None),
+            Err(_) => (Value::Null, Some((opts.tier.name().to_string(), idx, sweep))),
+        };
         let path = replay_dir_early.join(format!("{}-{}-{}{}-hang.json", p.id(), opts.seed, if sweep { "s" } else { "r" }, idx));
         let rf = ReplayFile {
             property: p.id().to_string(),
@@ -455,10 +605,11 @@ pub fn run_batch<P: Prop>(p: &P, opts: &Opts) -> i32 {
             original_size: 0,
             minimised_size: 0,
             shrink_executions: 0,
-            scenario: serde_json::to_value(&sc).unwrap(),
+            scenario: scv,
             trace: Value::Null,
             prelude: None,
             any_clause: false,
+            regenerate: regen,
         };
         let _ = std::fs::write(&path, serde_json::to_string_pretty(&rf).unwrap());
         println!("violation: clause=hang run={}{} detail=the run did not return within 40 s", if sweep { "sweep#" } else { "seeded#" }, idx);
@@ -551,11 +702,11 @@ pub fn run_batch<P: Prop>(p: &P, opts: &Opts) -> i32 {
         }
         handled_clauses.push(clause.clone());
         let mut stats = GenStats::default();
-        let sc = scenario_for(p, opts, *idx, *sweep, &mut stats);
+        let sc = gen_deadline(p, opts, *idx, *sweep, &mut stats);
         let orig_size = serde_json::to_string(&sc).map(|s| s.len()).unwrap_or(0);
-        let (mut min_sc, execs) = minimise(p, &sc, clause, 3000);
-        let mut r1 = p.execute(&min_sc);
-        let r2 = p.execute(&min_sc);
+        let (mut min_sc, execs) = minimise(p, &sc, clause, 3000, opts.seed);
+        let mut r1 = exec_deadline(p, &min_sc, opts.seed);
+        let r2 = exec_deadline(p, &min_sc, opts.seed);
         // A scenario whose verdict flips between executions in this process depends on state the
         // library keeps outside the connection (process-wide caches, pools): minimisation was
         // then steered by ambient state. Fall back to the scenario as generated; whether and how
@@ -564,7 +715,7 @@ pub fn run_batch<P: Prop>(p: &P, opts: &Opts) -> i32 {
         if !r1.violations.iter().any(|v| &v.clause == clause) {
             ambient = true;
             min_sc = sc.clone();
-            r1 = p.execute(&min_sc);
+            r1 = exec_deadline(p, &min_sc, opts.seed);
         }
         let viol = match r1.violations.iter().find(|v| &v.clause == clause).cloned() {
             Some(v) => v,
@@ -604,9 +755,10 @@ pub fn run_batch<P: Prop>(p: &P, opts: &Opts) -> i32 {
             minimised_size: min_size,
             shrink_executions: execs,
             scenario: serde_json::to_value(&min_sc).unwrap(),
-            trace: p.trace(&min_sc),
+            trace: trace_deadline(p, &min_sc, opts.seed),
             prelude: None,
             any_clause: ambient,
+            regenerate: None,
         };
         let fname = format!(
             "{}-{}-{}{}-{}.json",
@@ -634,8 +786,8 @@ pub fn run_batch<P: Prop>(p: &P, opts: &Opts) -> i32 {
             if k > 0 {
                 // the trace shown must belong to the scenario recorded
                 if let Ok(v) = serde_json::from_value::<P::Sc>(rf.scenario.clone()) {
-                    rf.trace = p.trace(&v);
-                    rf.trace_hash = p.execute(&v).trace_hash;
+                    rf.trace = trace_deadline(p, &v, opts.seed);
+                    rf.trace_hash = exec_deadline(p, &v, opts.seed).trace_hash;
                 }
             }
             std::fs::write(&path, serde_json::to_string_pretty(&rf).unwrap()).expect("write replay");
@@ -688,8 +840,8 @@ pub fn run_batch<P: Prop>(p: &P, opts: &Opts) -> i32 {
         let mut want_plain = true;
         let mut want_faulty = true;
         for i in 0..n_runs.min(400) {
-            let sc = scenario_for(p, opts, i, false, &mut stats);
-            let r = p.execute(&sc);
+            let sc = gen_deadline(p, opts, i, false, &mut stats);
+            let r = exec_deadline(p, &sc, opts.seed);
             let js = serde_json::to_value(&sc).unwrap();
             let small = serde_json::to_string(&js).map(|s| s.len() < 6000).unwrap_or(false);
             if !small {
@@ -711,7 +863,7 @@ pub fn run_batch<P: Prop>(p: &P, opts: &Opts) -> i32 {
             samples.push(json!({"kind": "systematic sweep case", "sweep_index": n_sweep / 2, "scenario": serde_json::to_value(&sc).unwrap()}));
         }
         if samples.is_empty() && n_runs > 0 {
-            let sc = scenario_for(p, opts, 0, false, &mut stats);
+            let sc = gen_deadline(p, opts, 0, false, &mut stats);
             samples.push(json!({"kind": "seeded run 0 (truncated JSON)", "scenario": truncate_json(serde_json::to_value(&sc).unwrap())}));
         }
         let ev = json!({
